@@ -96,6 +96,7 @@ fn main() {
                         }
                     }
                 }
+                "bdd" if extra.iter().any(|x| x == "sparse") => fam_bdd::gen_sparse(&mut r, cases, &mut out),
                 "bdd" if extra.iter().any(|x| x == "big") => fam_bdd::gen_big(&mut r, cases, size, &mut out),
                 "bdd" => fam_bdd::gen(&mut r, cases, size, &mut out),
                 "adf" => fam_adf::gen(&mut r, cases, size, &extra, &mut out),
